@@ -8,7 +8,8 @@
     `look`   — a lower bound on the number of unread bytes that are certainly in the buffer whatever
                the schedule (raised by `peek`/`peekTwo`, lowered by consumption);
     `behind` — the bytes of the multi-byte rune just read while they are certainly still in the
-               buffer right before the cursor (what `newLit` re-slices);
+               buffer right before the cursor (what `newLit` used to re-slice; since cb62b3c `newLit`
+               encodes the rune instead and nothing reads this ghost any more);
     `halted` — set when the stop-word test fired (`p.r = runeEOF` with input left): the lexer is
                expected to stop reading;
     `ok`     — cleared by the first operation that steps outside the protocol (the protocol is
@@ -16,7 +17,6 @@
       - `rune`, `peek`, `peekTwo`, `zshNumRange`, the stop-word test after the stop-word test fired,
       - `zshNumRange` at the end of input (Go panics on `p.bs[p.bsp:]`), and on a numeric range whose closing `>` is more than 64 bytes away
         (the real function gives up after 64 buffered bytes: residual finding C07-zshnumrange-long),
-      - `newLit` of a multi-byte rune that is not the rune just read,
       - `nextPos` after an error, `endLit` with fewer literal bytes than the current rune is wide.
   Core Lean only.
 -/
@@ -157,12 +157,11 @@ def runeDecode (a : LSt) : LSt :=
   let bytes := a.rest.take w
   let a := a.litPush bytes
   let a := a.consumeN w
-  let a := { a with behind := some bytes.reverse }
-  let a := if a.r == runeError && w == 1 then
-      let (o, l, c) := a.nextPos
-      a.errPass (.utf8 o l c)
-    else a
-  { a with w }
+  let a := { a with behind := some bytes.reverse, w := w }
+  if a.r == runeError && w == 1 then
+    let (o, l, c) := a.nextPos
+    a.errPass (.utf8 o l c)
+  else a
 
 /-- `p.bsp = len(p.bs)+1; p.r = runeEOF; p.w = 1` — idempotent -/
 def runeAtEOF (a : LSt) : LSt :=
@@ -205,10 +204,7 @@ def runesUpTo : Nat → Nat → LSt → Nat × LSt
 def newLit (a : LSt) (r : Nat) : LSt :=
   if r < 0x80 then { a with lit := some [UInt8.ofNat r] }
   else if r == runeEOF || r == escNewl then { a with lit := some [] }
-  else
-    match a.behind with
-    | some l => { a with lit := some l, ok := a.ok && decide (runeLen r = (l.length : Int)) }
-    | none => { a with lit := some [], ok := false }
+  else { a with lit := some (appendRune r).reverse }
 
 def endLit (a : LSt) : List Byte × LSt :=
   let l := a.lit.getD []
